@@ -1,6 +1,6 @@
 (* Props/C17.v -- C17: packet framing: the reader accepts every legal framing,
    the writer emits only legal framings.  Statements only. *)
-From Rpgp Require Import Base.Octets Base.Res Frame.Framing Frame.FramingProofs Frame.BodyReader Frame.BodyReaderProofs Io.Emitter Frame.PartialWriter Frame.PartialWriterProofs Frame.FixedWriter Frame.FixedWriterProofs.
+From Rpgp Require Import Base.Octets Base.Res Frame.Framing Frame.FramingProofs Frame.BodyReader Frame.BodyReaderProofs Io.Emitter Frame.PartialWriter Frame.PartialWriterProofs Frame.FixedWriter Frame.FixedWriterProofs Frame.Rewrite Frame.RewriteProofs.
 
 (* every legal current-format framing of a body -- any length class for the
    final piece, any sequence of partial chunks 2^k (k <= 30, first k >= 9,
@@ -177,3 +177,19 @@ Theorem C17_fixed_writer_machine_is_spec : forall tag h (req : N -> N) data,
   fw_run tag h req data = (emit_fixed tag h data, EClean).
 Proof. exact fw_machine_is_spec. Qed.
 Print Assumptions C17_fixed_writer_machine_is_spec.
+
+(* writing a packet that was read: whatever header it was read behind (any format, any length form, partial lengths), what is
+   written is a legal framing of the body now held, of the same format and tag, with a fixed length (a legacy header of
+   indeterminate length stays one) ... *)
+Theorem C17_rewritten_packet_is_legally_framed : forall h body rest,
+  tag_fits h = true -> lenN body < 4294967296 -> (hlen h = PIndet -> hf h = HOld /\ rest = []) ->
+  exists h', deframe (rewrite h body ++ rest) = Ok (h', body, rest) /\ hf h' = hf h /\ htag h' = htag h /\
+             (hlen h <> PIndet -> hlen h' = PFixed (lenN body)).
+Proof. exact rewrite_deframes. Qed.
+Print Assumptions C17_rewritten_packet_is_legally_framed.
+
+(* ... and reading that back and writing it once more gives the same octets *)
+Theorem C17_rewrite_is_a_fixed_point : forall h h' body,
+  hf h' = hf h -> htag h' = htag h -> (hlen h = PIndet <-> hlen h' = PIndet) -> rewrite h' body = rewrite h body.
+Proof. exact rewrite_fixed_point. Qed.
+Print Assumptions C17_rewrite_is_a_fixed_point.
